@@ -83,7 +83,7 @@ def s_harness(rep, cfg, modpath, name, fn, arg_specs, goal_fn, T, out_kind="scal
     n = 0
     while True:
         n += 1
-        if n > 32: raise Unsupported("more than 32 paths")
+        if n > 160: raise Unsupported("more than 160 paths")
         used = s_harness1(rep, cfg, modpath, "%s [path %d]" % (name, n), fn, arg_specs, goal_fn, T, out_kind, bounds, reduce_lemma, decisions)
         d = used[:]
         while d and d[-1] == 1: d.pop()
